@@ -18,7 +18,9 @@ THEOREMS = [
     "Verif.C03.tsMean_floor_split",
     "Verif.C03.split_floor_witness",
     "Verif.C03.pixel_ts_spec",
+    "Verif.C03.kymo_ts_placement",
     "Verif.C03.line_range_exact",
+    "Verif.C03.line_range_bounds",
     "Verif.C03.line_range_exact_raw",
     "Verif.C03.line_ranges_ordered",
     "Verif.C03.frame_range_exact",
